@@ -21,7 +21,7 @@ func init() {
 			"R-C17-2 the const gauges registered in NewMetrics are exactly the names handled by collectMetrics (default arm panics); " +
 			"R-C17-3 mirroring: each series/JSON field takes its value and labels from the like-named field of the like-typed option of the same RA, in the documented unit (seconds / milliseconds), interface gauges from Advertise/Monitor/forwarding/autoconf reads; " +
 			"R-C17-4 every call through a plugin's func-typed runtime field (populated only by Prepare) is preceded on its path by a non-nil test of that field; R-C17-5 plugin fields written by Prepare and read by Apply must be synchronised (reported as known findings); " +
-			"R-C17-6 /metrics is registered only under Debug.Prometheus, /debug/pprof/* only under Debug.PProf, /_/api/interfaces unconditionally; State failures produce an error response / ScrapeError, not a panic R-C17-6 also: a ScrapeError names a metric registered with ConstGauge; R-C17-7 per-option label values are unique among the options of one RA (pairwise check in the parser and no wildcard collision, or de-duplication before emission) — four known findings; R-C17-8 no slice that is re-sliced and refilled on each loop iteration is referenced by a stored entry (scratch-buffer aliasing between rendered options); R-C17-9 Handler.interfaces indexes its output with the interface loop counter only while every iteration appends exactly one entry. R-C17-6 constrains a route by the kind of its handler (pprof handlers under Debug.PProf, the Prometheus handler under Debug.Prometheus); routes with other handlers are not constrained. R-C17-3 also: the debug API stores packRA(ra) with ra generated on that request's path; a series' value and label are taken from the same option element (labels formatted once into a parallel slice are resolved).",
+			"R-C17-6 /metrics is registered only under Debug.Prometheus, /debug/pprof/* only under Debug.PProf, /_/api/interfaces unconditionally; State failures produce an error response / ScrapeError, not a panic R-C17-6 also: a ScrapeError names a metric registered with ConstGauge; R-C17-7 per-option label values are unique among the options of one RA (pairwise check in the parser and no wildcard collision, or de-duplication before emission) — four known findings; R-C17-8 no slice that is re-sliced and refilled on each loop iteration is referenced by a stored entry (scratch-buffer aliasing between rendered options); R-C17-9 Handler.interfaces indexes its output with the interface loop counter only while every iteration appends exactly one entry. R-C17-6 constrains a route by the kind of its handler (pprof handlers under Debug.PProf, the Prometheus handler under Debug.Prometheus); routes with other handlers are not constrained. R-C17-3 also: the debug API stores packRA(ra) with ra generated on that request's path; a series' value and label are taken from the same option element (labels formatted once into a parallel slice are resolved). R-C17-10 outside package config no in-place slice mutator (slices.Delete/DeleteFunc/Insert/Compact/Sort…/Reverse, sort.*, clear) is applied to a []config.Interface the function did not make, and no element of one is stored to (metrics, API and BuildTasks share one backing array).",
 		Assumptions: []string{
 			"Go type checker and go/ssa construction are correct",
 			"a type switch whose default arm panics crashes the request for any unlisted type",
